@@ -477,9 +477,7 @@ func translateApiVersions(fd *ast.FuncDecl) (prog string, errAfter bool, err err
 			idx = i
 		}
 	}
-	if idx < 0 {
-		return "", false, fmt.Errorf("ApiVersions: no waitResponse call")
-	}
+	// (when the parse lives in a helper of its own — readApiVersions — the whole body is translated)
 	errVars := map[string]bool{}   // X in `if X != 0 { return …, Error(X) }`
 	countVars := map[string]bool{} // X in `for …; i < int(X); …`
 	ast.Inspect(fd.Body, func(n ast.Node) bool {
@@ -518,6 +516,7 @@ func translateApiVersions(fd *ast.FuncDecl) (prog string, errAfter bool, err err
 	}
 	var out []string
 	var pendingCount bool
+	boundElem := 0 // > 0: the count is checked against size/boundElem (and for being negative) before the loop
 	for _, st := range fd.Body.List[idx+1:] {
 		switch s := st.(type) {
 		case *ast.DeclStmt, *ast.DeferStmt, *ast.ReturnStmt:
@@ -555,6 +554,15 @@ func translateApiVersions(fd *ast.FuncDecl) (prog string, errAfter bool, err err
 				return true
 			})
 			if mentionsCount && pendingCount && !bodyMakesError(s.Body) && containsCall(s.Body, "Errorf") {
+				// `n < 0 || n > size/<elem>`: the element size is the literal divisor
+				ast.Inspect(s.Cond, func(n ast.Node) bool {
+					if be, ok := n.(*ast.BinaryExpr); ok && be.Op == token.QUO {
+						if lit, ok := be.Y.(*ast.BasicLit); ok {
+							fmt.Sscanf(lit.Value, "%d", &boundElem)
+						}
+					}
+					return true
+				})
 				continue
 			}
 			return "", false, fmt.Errorf("ApiVersions: untranslated if")
@@ -570,7 +578,11 @@ func translateApiVersions(fd *ast.FuncDecl) (prog string, errAfter bool, err err
 				}
 				body = append(body, step)
 			}
-			out = append(out, ".arr ["+strings.Join(body, ", ")+"]")
+			if boundElem > 0 {
+				out = append(out, fmt.Sprintf(".arrB %d [%s]", boundElem, strings.Join(body, ", ")))
+			} else {
+				out = append(out, ".arr ["+strings.Join(body, ", ")+"]")
+			}
 			pendingCount = false
 		default:
 			return "", false, fmt.Errorf("ApiVersions: untranslated statement %T", st)
